@@ -17,6 +17,10 @@ type Chan[T any] struct {
 	buf   []T
 	sendq []*sendWait[T]
 	recvq []*recvWait[T]
+	// parked selects that have a receive / send case on this channel (a select that waits is a
+	// waiting receiver or sender like any other: its partner may complete the communication)
+	selRecv []selReg
+	selSend []selSendReg[T]
 	// hb carries the happens-before edges of completed operations to the race
 	// detector (an atomic read-modify-write: acquire+release). This orders all
 	// operations of one channel, slightly more than Go guarantees.
@@ -26,14 +30,31 @@ type Chan[T any] struct {
 // chanCore mirrors len(buf), len(sendq), len(recvq), cap and closed.
 type chanCore struct {
 	cap, nbuf, nsend, nrecv int
-	closed                 bool
+	nselRecv, nselSend      int
+	closed                  bool
 }
 
 //go:norace
-func (c *chanCore) sendReady() bool { return c.closed || c.nbuf < c.cap || c.nrecv > 0 }
+func (c *chanCore) sendReady() bool {
+	return c.closed || c.nbuf < c.cap || c.nrecv > 0 || c.nselRecv > 0
+}
 
 //go:norace
-func (c *chanCore) recvReady() bool { return c.nbuf > 0 || c.nsend > 0 || c.closed }
+func (c *chanCore) recvReady() bool {
+	return c.nbuf > 0 || c.nsend > 0 || c.closed || c.nselSend > 0
+}
+
+// selReg / selSendReg: one case of a parked select, registered with its channel.
+type selReg struct {
+	w   *selWait
+	idx int
+}
+
+type selSendReg[T any] struct {
+	w   *selWait
+	idx int
+	v   T
+}
 
 // chanWait is the predicate of a parked send or receive.
 type chanWait struct {
@@ -67,6 +88,31 @@ type recvWait[T any] struct {
 //go:norace
 func (c *Chan[T]) syncCore() {
 	c.core.nbuf, c.core.nsend, c.core.nrecv = len(c.buf), len(c.sendq), len(c.recvq)
+	c.core.nselRecv, c.core.nselSend = len(c.selRecv), len(c.selSend)
+}
+
+// deliver performs a send that is known to be ready (not closed): to a waiting receiver if nothing is
+// buffered ahead of it, else into the buffer, else (buffer full or unbuffered) to a parked select.
+//
+//go:norace
+func (c *Chan[T]) deliver(v T) {
+	c.edge()
+	if len(c.buf) == 0 && len(c.recvq) > 0 {
+		r := c.recvq[0]
+		c.recvq = c.recvq[1:]
+		r.v, r.ok, r.done = v, true, true
+		return
+	}
+	if len(c.buf) < c.core.cap {
+		c.buf = append(c.buf, v)
+		return
+	}
+	if len(c.selRecv) > 0 {
+		g := c.selRecv[0]
+		g.w.complete(g.idx, v, true)
+		return
+	}
+	c.buf = append(c.buf, v) // not reached when the caller checked sendReady
 }
 
 func MakeChan[T any](n int) *Chan[T] {
@@ -112,17 +158,7 @@ func Send[T any](c *Chan[T], v T) {
 	if c.core.closed {
 		panic("send on closed channel")
 	}
-	c.edge()
-	// A receiver registers itself before it has looked at the channel, so a registered receiver does
-	// not mean the buffer is empty: hand the value over directly only if nothing is buffered ahead of
-	// it (FIFO); otherwise it goes into the buffer and the receiver takes the oldest value when it runs.
-	if len(c.buf) == 0 && len(c.recvq) > 0 {
-		r := c.recvq[0]
-		c.recvq = c.recvq[1:]
-		r.v, r.ok, r.done = v, true, true
-		return
-	}
-	c.buf = append(c.buf, v)
+	c.deliver(v)
 }
 
 //go:norace
@@ -194,6 +230,10 @@ func (c *Chan[T]) takeNow() (T, bool) {
 			c.sendq = c.sendq[1:]
 			c.buf = append(c.buf, s.v)
 			s.taken = true
+		} else if len(c.selSend) > 0 { // ... or the send case of a parked select
+			g := c.selSend[0]
+			c.buf = append(c.buf, g.v)
+			g.w.complete(g.idx, nil, false)
 		}
 		return v, true
 	}
@@ -202,6 +242,12 @@ func (c *Chan[T]) takeNow() (T, bool) {
 		c.sendq = c.sendq[1:]
 		s.taken = true
 		return s.v, true
+	}
+	if len(c.selSend) > 0 {
+		g := c.selSend[0]
+		v := g.v
+		g.w.complete(g.idx, nil, false)
+		return v, true
 	}
 	return z, false // closed
 }
@@ -236,55 +282,145 @@ func Close[T any](c *Chan[T]) {
 //
 //go:norace
 func TrySend[T any](c *Chan[T], v T) bool {
+	c.syncCore()
 	defer c.syncCore()
-	if len(c.buf) == 0 && len(c.recvq) > 0 {
-		r := c.recvq[0]
-		c.recvq = c.recvq[1:]
-		r.v, r.ok, r.done = v, true, true
-		c.edge()
-		return true
+	if c.core.closed || !c.core.sendReady() {
+		return false
 	}
-	if len(c.buf) < c.core.cap {
-		c.buf = append(c.buf, v)
-		c.edge()
-		return true
-	}
-	return false
+	c.deliver(v)
+	return true
 }
 
 // ---------------------------------------------------------------- select
 
-type selCase struct {
-	core *chanCore // nil: never ready (nil channel)
-	send bool
-	fire func() any
+// selOps is one case of a select, bound to its (generic) channel. Implementations are structs with
+// //go:norace methods, never closures: a case of a parked select is touched by whichever thread
+// completes the communication.
+type selOps interface {
+	ready(self *selWait) bool
+	fire() any // performs the communication (known to be ready); receive: [2]any{v, ok}
+	register(w *selWait, idx int)
+	unregister(w *selWait)
 }
+
+type recvSel[T any] struct{ c *Chan[T] }
 
 //go:norace
-func (c *selCase) ready() bool {
-	if c.core == nil {
-		return false
+func (s recvSel[T]) ready(self *selWait) bool {
+	c := s.c
+	if len(c.buf) > 0 || len(c.sendq) > 0 || c.core.closed {
+		return true
 	}
-	if c.send {
-		return c.core.sendReady()
-	}
-	return c.core.recvReady()
-}
-
-// selWait is the predicate of a parked select: some case is ready.
-type selWait struct {
-	cases [8]selCase
-	n     int
-}
-
-//go:norace
-func (w *selWait) Ready() bool {
-	for i := 0; i < w.n; i++ {
-		if w.cases[i].ready() {
+	for _, g := range c.selSend {
+		if g.w != self { // a select does not communicate with itself
 			return true
 		}
 	}
 	return false
+}
+
+//go:norace
+func (s recvSel[T]) fire() any { v, ok := s.c.takeNow(); return [2]any{v, ok} }
+
+//go:norace
+func (s recvSel[T]) register(w *selWait, idx int) {
+	s.c.selRecv = append(s.c.selRecv, selReg{w, idx})
+	s.c.syncCore()
+}
+
+//go:norace
+func (s recvSel[T]) unregister(w *selWait) {
+	out := s.c.selRecv[:0]
+	for _, g := range s.c.selRecv {
+		if g.w != w {
+			out = append(out, g)
+		}
+	}
+	s.c.selRecv = out
+	s.c.syncCore()
+}
+
+type sendSel[T any] struct {
+	c *Chan[T]
+	v T
+}
+
+//go:norace
+func (s sendSel[T]) ready(self *selWait) bool {
+	c := s.c
+	if c.core.closed || len(c.buf) < c.core.cap || len(c.recvq) > 0 {
+		return true
+	}
+	for _, g := range c.selRecv {
+		if g.w != self {
+			return true
+		}
+	}
+	return false
+}
+
+//go:norace
+func (s sendSel[T]) fire() any {
+	defer s.c.syncCore()
+	if s.c.core.closed {
+		panic("send on closed channel")
+	}
+	s.c.deliver(s.v)
+	return nil
+}
+
+//go:norace
+func (s sendSel[T]) register(w *selWait, idx int) {
+	s.c.selSend = append(s.c.selSend, selSendReg[T]{w, idx, s.v})
+	s.c.syncCore()
+}
+
+//go:norace
+func (s sendSel[T]) unregister(w *selWait) {
+	out := s.c.selSend[:0]
+	for _, g := range s.c.selSend {
+		if g.w != w {
+			out = append(out, g)
+		}
+	}
+	s.c.selSend = out
+	s.c.syncCore()
+}
+
+// selWait is a parked select: its predicate (some case is ready, or a partner has completed one) and
+// the result a partner left behind.
+type selWait struct {
+	cases [8]selOps // nil: case on a nil channel (never ready)
+	n     int
+	done  bool
+	idx   int
+	val   any
+	ok    bool
+}
+
+//go:norace
+func (w *selWait) Ready() bool {
+	if w.done {
+		return true
+	}
+	for i := 0; i < w.n; i++ {
+		if w.cases[i] != nil && w.cases[i].ready(w) {
+			return true
+		}
+	}
+	return false
+}
+
+// complete is called by the partner of a parked select: case idx has communicated.
+//
+//go:norace
+func (w *selWait) complete(idx int, v any, ok bool) {
+	w.done, w.idx, w.val, w.ok = true, idx, v, ok
+	for i := 0; i < w.n; i++ {
+		if w.cases[i] != nil {
+			w.cases[i].unregister(w)
+		}
+	}
 }
 
 // Sel is the result of a Select.
@@ -296,7 +432,7 @@ type Sel struct {
 
 // SelCase is one communication clause.
 type SelCase struct {
-	c selCase
+	c selOps
 	// pass-through
 	dir  reflect.SelectDir
 	ch   reflect.Value
@@ -312,13 +448,7 @@ func RecvCase[T any](c *Chan[T]) SelCase {
 	}
 	sc.ch = reflect.ValueOf(c.real)
 	c.syncCore()
-	sc.c = selCase{
-		core: &c.core,
-		fire: func() any {
-			v, ok := c.takeNow()
-			return [2]any{v, ok}
-		},
-	}
+	sc.c = recvSel[T]{c}
 	return sc
 }
 
@@ -331,25 +461,7 @@ func SendCase[T any](c *Chan[T], v T) SelCase {
 	}
 	sc.ch = reflect.ValueOf(c.real)
 	c.syncCore()
-	sc.c = selCase{
-		core: &c.core,
-		send: true,
-		fire: func() any {
-			defer c.syncCore()
-			if c.core.closed {
-				panic("send on closed channel")
-			}
-			c.edge()
-			if len(c.buf) == 0 && len(c.recvq) > 0 {
-				r := c.recvq[0]
-				c.recvq = c.recvq[1:]
-				r.v, r.ok, r.done = v, true, true
-				return nil
-			}
-			c.buf = append(c.buf, v)
-			return nil
-		},
-	}
+	sc.c = sendSel[T]{c, v}
 	return sc
 }
 
@@ -389,19 +501,34 @@ func Select(hasDefault bool, cases ...SelCase) *Sel {
 	if hasDefault {
 		Sched("select")
 	} else {
+		for i := 0; i < w.n; i++ {
+			if w.cases[i] != nil {
+				w.cases[i].register(w, i)
+			}
+		}
 		Wait("select", w)
-	}
-	var ready []int
-	for i, c := range cases {
-		if c.c.ready() {
-			ready = append(ready, i)
+		if w.done { // a partner completed one of the cases while this select was parked
+			return &Sel{Index: w.idx, val: w.val, ok: w.ok}
+		}
+		for i := 0; i < w.n; i++ {
+			if w.cases[i] != nil {
+				w.cases[i].unregister(w)
+			}
 		}
 	}
-	if len(ready) == 0 {
+	var ready [8]int
+	nr := 0
+	for i := 0; i < w.n; i++ {
+		if w.cases[i] != nil && w.cases[i].ready(w) {
+			ready[nr] = i
+			nr++
+		}
+	}
+	if nr == 0 {
 		return &Sel{Index: -1}
 	}
-	k := ready[X.choose(len(ready), true, false, nil)]
-	r := cases[k].c.fire()
+	k := ready[X.choose(nr, true, false, nil)]
+	r := w.cases[k].fire()
 	s := &Sel{Index: k}
 	if p, ok := r.([2]any); ok {
 		s.val, s.ok = p[0], p[1].(bool)
